@@ -254,7 +254,7 @@ class Interp:
             # choice 0 = the positive symbol is True
             val = (c == 0)
             val = (not val) if v.neg else val
-            self.decisions.append((label or v.sym, val))
+            self.decisions.append((label or v.sym, val, v.sym, (not val) if v.neg else val))
             return val
         if isinstance(v, (EnumVal, Obj, Func, ClassRef, ExtRef, ExcVal, BoundBuiltin)):
             if isinstance(v, Obj) and v.cls is not None:
@@ -1395,7 +1395,8 @@ class Interp:
             return self.fresh("field")
         # anything else outside the package: opaque, pure, deterministic in its arguments
         self.event("extcall", name, tuple(a for a in args if not isinstance(a, (list, dict))))
-        return Unknown(f"{name}({', '.join(_sym(a) for a in args)})")
+        parts = [_sym(a) for a in args] + [f"{k}={_sym(v)}" for k, v in kwargs.items()]
+        return Unknown(f"{name}({', '.join(parts)})")
 
     def _isinstance(self, v, cls):
         if isinstance(cls, tuple):
@@ -1651,3 +1652,41 @@ def freeze(v, _depth=0):
     if isinstance(v, (Func, ClassRef, ExtRef, ExcVal, BoundBuiltin)):
         return repr(v) if not isinstance(v, Func) else f"func@{getattr(v.node, 'lineno', 0)}"
     return v
+
+
+def cmp_outcome(decision, a_needle, b_needle):
+    """For a recorded decision on a comparison between something mentioning
+    a_needle and something mentioning b_needle, return the relation that held
+    between a and b on this path: 'lt' | 'ge' | 'gt' | 'le' — or None when the
+    decision is not such a comparison.  (fdai canonicalises `>=` as ¬`<` and
+    `<=` as ¬`>`; the relation is recovered from the canonical symbol and the
+    truth of its positive form, so it does not depend on how the source spells
+    the test.)"""
+    sym, pos = decision[2], decision[3]
+    if not (sym.startswith("(") and sym.endswith(")")):
+        return None
+    body = sym[1:-1]
+    for op in (" < ", " > "):
+        # split at the top-level operator (last occurrence outside parentheses)
+        depth = 0
+        idx = -1
+        for i, ch in enumerate(body):
+            if ch == "(":
+                depth += 1
+            elif ch == ")":
+                depth -= 1
+            elif depth == 0 and body.startswith(op, i):
+                idx = i
+        if idx < 0:
+            continue
+        x, y = body[:idx], body[idx + len(op):]
+        if a_needle in x and b_needle in y and not (a_needle in y and b_needle in x):
+            rel = "lt" if op == " < " else "gt"
+        elif a_needle in y and b_needle in x:
+            rel = "gt" if op == " < " else "lt"      # b < a  ==  a > b
+        else:
+            return None
+        if pos:
+            return rel
+        return {"lt": "ge", "gt": "le"}[rel]
+    return None
